@@ -84,6 +84,7 @@ type reqCase struct {
 	proto      string
 	host       string // SNI and Host (no port)
 	hostHdr    string // Host header as sent (may carry a port)
+	sni        string // TLS server name when it differs from the requested host (coalesced h2/h3 connection)
 	method     string
 	path       string
 	localIP    string
@@ -99,6 +100,13 @@ func genCase(rng *rand.Rand, id int, proto string, hosts []string) reqCase {
 	c := reqCase{id: id, proto: proto, header: http.Header{}, spoofed: map[string][]string{}}
 	c.host = hosts[rng.Intn(len(hosts))]
 	c.hostHdr = c.host
+	if (proto == "h2" || proto == "h3") && len(hosts) > 1 && rng.Intn(4) == 0 {
+		// browsers reuse an HTTP/2 or HTTP/3 connection for every hostname its certificate covers: the
+		// TLS server name is then not the requested host
+		for c.sni == "" || c.sni == c.host {
+			c.sni = hosts[rng.Intn(len(hosts))]
+		}
+	}
 	if rng.Intn(4) == 0 {
 		c.hostHdr = fmt.Sprintf("%s:%d", c.host, []int{443, 80, 8443, 1}[rng.Intn(4)])
 	}
@@ -160,7 +168,11 @@ type result struct {
 }
 
 func doRequest(lab *gwlab.Lab, c reqCase) result {
-	cl := lab.ClientFrom(c.proto, c.host, c.localIP)
+	sni := c.host
+	if c.sni != "" {
+		sni = c.sni // a coalesced connection: opened for another hostname of the same gateway
+	}
+	cl := lab.ClientFrom(c.proto, sni, c.localIP)
 	defer gwlab.CloseClient(cl)
 	var body io.Reader
 	if c.method == "POST" || c.method == "PUT" {
@@ -197,7 +209,7 @@ func doRequest(lab *gwlab.Lab, c reqCase) result {
 func main() {
 	r := ev.Start("C35", "exploration")
 	r.SetMaxSamples(6)
-	r.SetRule("requests over {h1,h2,h3} x gateway port {443, other} from a random loopback source address 127.0.x.y, Host with/without an explicit port, methods GET/POST/PUT/DELETE, carrying a seeded subset of spoofed {X-Forwarded-For, X-Forwarded-Proto, X-Forwarded-Host, True-Client-IP, X-Real-IP} (single / repeated lines, also with an empty or blank first line / comma lists / odd header-name casing on h1), other X-Forwarded-* / Forwarded headers, and on h1 a Connection header naming the forwarding headers; a case is distinct by (protocol, port class, set of spoofed judged headers, repeated, explicit Host port, Connection trick)")
+	r.SetRule("requests over {h1,h2,h3} x gateway port {443, other} from a random loopback source address 127.0.x.y, Host with/without an explicit port, on h2/h3 a quarter of the requests over a connection opened for another hostname of the gateway (SNI differs from the requested host), methods GET/POST/PUT/DELETE, carrying a seeded subset of spoofed {X-Forwarded-For, X-Forwarded-Proto, X-Forwarded-Host, True-Client-IP, X-Real-IP} (single / repeated lines, also with an empty or blank first line / comma lists / odd header-name casing on h1), other X-Forwarded-* / Forwarded headers, and on h1 a Connection header naming the forwarding headers; a case is distinct by (protocol, port class, set of spoofed judged headers, repeated, explicit Host port, Connection trick)")
 	r.Assume("the connecting peer is identified by its loopback source address; spoofed values never equal the values the gateway must assert")
 	r.Assume("X-Forwarded-* names other than For/Proto/Host and the RFC 7239 Forwarded header are counted, not judged (the statement names three)")
 	r.Assume("Host and SNI are lower-case and equal (HTTP/1.1 requests are routed by SNI in this gateway)")
@@ -278,7 +290,7 @@ func judge(r *ev.Run, c reqCase, res result, portName string, gwPort int) {
 		names = append(names, k)
 	}
 	sort.Strings(names)
-	sig := fmt.Sprintf("%s/%s/%s/rep=%v/hp=%v/ct=%v", c.proto, portName, strings.Join(names, "+"), c.repeated, c.hostHdr != c.host, c.connTrick)
+	sig := fmt.Sprintf("%s/%s/%s/rep=%v/hp=%v/ct=%v", c.proto, portName, strings.Join(names, "+"), c.repeated, c.hostHdr != c.host, c.connTrick) + fmt.Sprintf("/coalesced=%v", c.sni != "")
 	r.Case(sig)
 	wit := map[string]any{"proto": c.proto, "gateway_port": gwPort, "peer_ip": c.localIP, "host_header": c.hostHdr, "sent_headers": c.header, "status": res.status}
 	if res.echo == nil {
